@@ -10,6 +10,8 @@ fi
 if [ -f harness/translate_pure.py ]; then
   /venv/bin/python harness/translate_pure.py --quiet >/dev/null 2>&1 || python3 harness/translate_pure.py --quiet >/dev/null 2>&1 || echo "translate_pure refused (C02/C20 will report it)"
 fi
+[ -f harness/translate_routes.py ] && { /venv/bin/python harness/translate_routes.py --quiet >/dev/null 2>&1 || python3 harness/translate_routes.py --quiet >/dev/null 2>&1 || echo "translate_routes refused (C06 will report it)"; }
+[ -f harness/translate_gridops.py ] && { /venv/bin/python harness/translate_gridops.py --quiet >/dev/null 2>&1 || python3 harness/translate_gridops.py --quiet >/dev/null 2>&1 || echo "translate_gridops refused (C05 will report it)"; }
 cd lean || exit 1
 LOG="$(mktemp)"
 # the root lists the models, lemma files and the Props files that need no generated module; the others (…Extra, …Gen, …Driver,
